@@ -80,6 +80,13 @@ partial def agrees (root : Bool) : Want → Skel → Option String
     | none => some "part-without-content-type"
     | some v =>
       if !(ct.map lowerB).isPrefixOf (v.map lowerB) then some "part-content-type-differs" else
+      -- parameter values are case-sensitive (only type, subtype, parameter names and the charset are not): `name` and `method`
+      -- as asked for are what a reader finds
+      let paramErr : Option String := [str "name", str "method"].findSome? fun k =>
+        match StructuredDec.paramDecode k ct, StructuredDec.paramDecode k v with
+        | some x, some y => if x == y then none else some "content-type-parameter-value-altered"
+        | _, _ => none
+      if paramErr.isSome then paramErr else
       -- an attachment's own fields: the disposition, and the file name / content id a reader decodes
       let attErr : Option String := match att with
         | none => none
